@@ -11,7 +11,7 @@
     OBLIGATIONS: C14_inner_marker_eats_following_whitespace C14_marker_eats_preceding_whitespace
       C14_text_is_left_alone C14_text_before_anything_is_left_alone C14_no_marker_in_output_text C14_nonvacuous
       C14_whole_document C14_no_marker_survives_any_placement C14_only_whitespace_is_removed C14_document_test_is_sound
-      C14_document_nonvacuous *)
+      C14_document_nonvacuous C14_pass_is_idempotent *)
 From GV Require Import Base.Regex Proofs.NukeProofs Proofs.NukeDocProofs.
 
 (** `<` (and the trailing side of `>`): the marker and all white space immediately after it are removed *)
@@ -64,6 +64,12 @@ Theorem C14_document_test_is_sound : forall d, doc_ok d = true ->
   non_ws (nuke (raw d)) = non_ws (texts d).
 Proof. exact nuke_document_checked. Qed.
 Print Assumptions C14_document_test_is_sound.
+
+(** what Render writes is a fixed point of the eraser: a second pass (a rendered document embedded in another render)
+    removes nothing more *)
+Theorem C14_pass_is_idempotent : forall d, normal d -> texts_inert d -> nuke (nuke (raw d)) = nuke (raw d).
+Proof. exact nuke_document_idempotent. Qed.
+Print Assumptions C14_pass_is_idempotent.
 
 (** non-vacuity: two adjacent marked siblings (`%a<` then `%b>`), a nested block and trailing text *)
 Example C14_document_nonvacuous :
